@@ -141,8 +141,10 @@ class C17(Prop):
         "and exact comparison agree, probes within 1e-9 of a trained bound are counted and skipped",
         "the sample standard deviations computed by statistics.stdev are environment values (any value >= 0 in the theorems)",
         "rule conditions return (truthy/falsy) or raise; they do not call back into the immune system",
-        "MHCDisplay's text analysis (lengths, vocabulary, structure, md5) is not modelled: the display is a slot "
-        "holding the current fingerprint; memory import/export/prune_old, similarity(), recent_update are not modelled",
+        "MHCDisplay is modelled up to its text analysis: regex word extraction, json parsing and md5 are environment (an "
+        "observation arrives with its length, word ids and structure id; the harness checks each line against the string "
+        "it renders); an empty window with min_observations <= 0 (ZeroDivisionError) is not configured; memory "
+        "import/export/prune_old, similarity(), recent_update are not modelled",
     ]
     trusted_modelled = ["modelled, not verified: operon_ai/surveillance tcell/treg/thymus/memory/immune_system as "
                         "Operon.Immune (Model/Immune.lean); decision tables regenerated by extractor E4"]
